@@ -61,7 +61,6 @@ GraphView == <<keep, count, np, pl, ended, out, sched, base, cval, cdef>>
 NegDeltas == {-1, -Q}    \* negative deltas offered to add() (cfg files cannot write negative numbers)
 
 Max2(a, b) == IF a >= b THEN a ELSE b
-SeqRange(s) == {s[i] : i \in DOMAIN s}
 MapSeq(s, F(_)) == IF s = <<>> THEN <<>> ELSE [i \in 1..Len(s) |-> F(s[i])]
 
 ---------------------------------------------------------------------------
